@@ -1,1 +1,45 @@
-From Verif Require Import Base Tie.
+(* C09 -- missing-value policy: drop / error / pass (Model/Design.v prepare_data, design_matrices).
+   NaN propagation through the numeric kernels ("pass") is tied by the correspondence. *)
+From Verif Require Import Base Tokens Algebra Frame Design DesignStructure FrameStructure.
+From Verif Require Generated Tie.
+Local Close Scope Qc_scope.
+Local Close Scope Q_scope.
+
+(* drop = keep exactly the rows that are complete in the USED columns *)
+Theorem C09_drop_is_filter :
+  forall data m, frame_wf data -> frame_rows data <> 0%nat ->
+    prepare_data data m NaDrop = Ok (frame_select (complete_mask data m) (used_cols data m)).
+Proof. exact drop_is_filter. Qed.
+
+(* ... hence the whole result equals the run (under any policy) on the data without those rows *)
+Theorem C09_design_drop_is_filter :
+  forall cx e data m na,
+    describe e = Ok m -> frame_wf data -> frame_rows data <> 0%nat ->
+    count_true (complete_mask data m) <> 0%nat ->
+    design_matrices cx e (frame_select (complete_mask data m) data) na = design_matrices cx e data NaDrop.
+Proof. exact design_drop_is_filter. Qed.
+
+Theorem C09_error_iff :
+  forall data m, frame_wf data -> frame_rows data <> 0%nat ->
+    (prepare_data data m NaError = Err EValue <->
+     exists kv, In kv (used_cols data m) /\ has_missing (snd kv) = true) /\
+    (prepare_data data m NaError <> Err EValue -> prepare_data data m NaError = Ok (used_cols data m)).
+Proof. exact error_iff. Qed.
+
+Theorem C09_pass_keeps_rows :
+  forall data m, frame_rows data <> 0%nat -> prepare_data data m NaPass = Ok (used_cols data m).
+Proof. exact pass_keeps_rows. Qed.
+
+(* missing values in unused columns are ignored *)
+Theorem C09_unused_columns_irrelevant :
+  forall d1 d2 m na, used_cols d1 m = used_cols d2 m -> frame_rows d1 = frame_rows d2 ->
+    prepare_data d1 m na = prepare_data d2 m na.
+Proof. exact unused_columns_irrelevant. Qed.
+
+(* any other na_action is refused: the accepted values are exactly those of the source *)
+Example C09_accepted_policies : Generated.gen_na_actions = ["drop"%string; "error"%string; "pass"%string].
+Proof. reflexivity. Qed.
+
+Print Assumptions C09_drop_is_filter.
+Print Assumptions C09_design_drop_is_filter.
+Print Assumptions C09_error_iff.
